@@ -7,6 +7,7 @@ import (
 	"fmt"
 	"math"
 	"os"
+	"sort"
 	"strings"
 
 	"github.com/launchdarkly/go-sdk-common/v3/ldattr"
@@ -726,12 +727,17 @@ func (g *gen) wideCase(id string) *EvalCase {
 func (g *gen) manyKindsCase(id string) *EvalCase {
 	r := g.r
 	c := &EvalCase{ID: id, Kind: "eval", Opts: WOpts{Log: r.chance(2, 3), Rec: true}}
-	all := []string{"user", "org", "device", "team", "tenant", "app", "region", "cluster", "shard"}
+	all := []string{"user", "org", "device", "team", "tenant", "app", "region", "cluster", "shard",
+		"account", "zone", "workspace", "Vendor", "_x"}
 	for i := range all {
 		j := i + r.intn(len(all)-i)
 		all[i], all[j] = all[j], all[i]
 	}
 	kinds := all[:4+r.intn(5)]
+	if r.chance(1, 3) {
+		// more kinds than any small fixed-size per-evaluation index would hold (9..14)
+		kinds = all[:9+r.intn(len(all)-8)]
+	}
 	ctx := WCtx{T: "multi"}
 	for _, k := range kinds {
 		sc := g.sctx(k)
@@ -770,6 +776,40 @@ func (g *gen) manyKindsCase(id string) *EvalCase {
 		} else {
 			f.Rules = append(f.Rules, WFlagRule{ID: fmt.Sprintf("r%d", i), Clauses: []WClause{cl},
 				VR: WVR{V: ip(1), RO: WRollout{Vars: []WWV{}, By: mkRef("", "")}}})
+		}
+	}
+	if r.chance(1, 2) {
+		// target lists on some of the kinds — also those that sort last among the context's kinds —
+		// in the three shapes of anyTargetMatchVariation: context targets only, legacy targets only,
+		// and a context target of kind user with no values that delegates to the legacy list
+		sorted := append([]string{}, kinds...)
+		sort.Strings(sorted)
+		cands := []string{sorted[len(sorted)-1], sorted[len(sorted)-1], pick(r, kinds), pick(r, kinds)}
+		hasUser := false
+		for _, k := range kinds {
+			hasUser = hasUser || k == "user"
+		}
+		tk := pick(r, cands)
+		keyOf := func(k string) string {
+			for _, sc := range ctx.Cs {
+				if sc.Kind == k {
+					return sc.Key
+				}
+			}
+			return "nobody"
+		}
+		vals := []string{"someone-else", keyOf(tk)}
+		if r.chance(1, 4) {
+			vals = []string{"someone-else"}
+		}
+		switch {
+		case hasUser && r.chance(1, 3):
+			f.Targets = []WTarget{{CK: "", Vals: []string{"x", keyOf("user")}, V: 2}}
+			if r.chance(1, 2) {
+				f.CTargets = []WTarget{{CK: pick(r, []string{"", "user"}), Vals: []string{}, V: 2}}
+			}
+		default:
+			f.CTargets = []WTarget{{CK: "nokind", Vals: []string{keyOf(tk)}, V: 0}, {CK: tk, Vals: vals, V: 2}}
 		}
 	}
 	c.Flag = f
